@@ -214,6 +214,7 @@ def lasso(cfg, prefix, cycle, reps, props, res, on_violation=None, offset=0):
     before = None
     for a in list(prefix) + list(cycle) * reps:
         if not w.applicable(a):
+            res.extra["lasso_runs_cut_short_by_an_inapplicable_action"] += 1  # said in the evidence, not silently dropped
             return
         if before is None:
             before = w.snapshot()
